@@ -20,7 +20,7 @@ RULE = ("histories over {place(content form, value), rest(value), bar + content,
         "histories of up to 60 steps, (d) meter acceptance over beat units/counts. The bar is compared with an exact Fraction "
         "model after every step. Non-trivial: a history that reaches exact capacity, contains a refusal, or places after a "
         "remove-last; a fill with > 1 part; a meter with a non-integer or non-power-of-two unit."
-        " Also: constructed overflows by 1-5 vocabulary quanta; 'beat closer' histories (tuplet-heavy prefix, values placed until exactly one or two beats are left, then '+'); 'churn' histories (place-and-remove cycles on tuplet beats, then an exact refill); emptying the same Bar and giving it a new meter.")
+        " Also: constructed overflows by 1-5 vocabulary quanta; 'beat closer' histories (tuplet-heavy prefix, values placed until exactly one or two beats are left, then '+'); 'churn' histories (place-and-remove cycles on tuplet beats, then an exact refill); emptying the same Bar and giving it a new meter; place_notes_at with the beat written as an int, including whole-number beats where no entry starts.")
 ASSUMPTIONS = ["note values handed to mingus are ints when integral, else the correctly rounded float of the vocabulary rational",
                "a refused meter is any raised exception with the bar unchanged (statement does not name the error)",
                "float clauses compared with |.| <= 1e-9; vocabulary quantum is 1/215040 ~ 4.7e-6"]
@@ -70,7 +70,7 @@ def run_history(ctx, case, sparse=False):
     model = BarModel(meter)
     ctx.check(abs(bar.length - (float(model.L) if model.L is not None else 0.0)) <= 1e-12, "length",
               lambda: "meter %r length %r" % (meter, bar.length))
-    flags = {"capacity": False, "refusal": False, "rm_then_place": False, "plus_closes_bar": False, "steps": 0}
+    flags = {"capacity": False, "refusal": False, "rm_then_place": False, "plus_closes_bar": False, "at_int": False, "steps": 0}
     last_rm = False
     for k, op in enumerate(case["ops"]):
         kind = op[0]
@@ -171,8 +171,26 @@ def run_history(ctx, case, sparse=False):
                 continue
             i = snd[op[1] % len(snd)]
             notes = op[2]
-            ctx.ok("place_notes_at", bar.place_notes_at, NoteContainer(["%s-%d" % (n, o) for (n, o) in notes]), bar.bar[i][0])
-            model.entries[i][2] = content_model(model.entries[i][2] + notes)
+            mode = op[3] if len(op) > 3 else 0
+            nc = NoteContainer(["%s-%d" % (n, o) for (n, o) in notes])
+            if mode == 2:  # a whole-number beat: either no entry starts there (nothing may change) or it names that entry
+                beat = op[1] % 6
+                hit = [j for j, e in enumerate(model.entries) if e[0] == beat]
+                if hit and model.entries[hit[0]][2] is None:
+                    continue
+                ctx.ok("place_notes_at", bar.place_notes_at, nc, beat)
+                if hit:
+                    model.entries[hit[0]][2] = content_model(model.entries[hit[0]][2] + notes)
+                flags["at_int"] = True
+            else:
+                start = model.entries[i][0]
+                if mode == 1 and start.denominator == 1:  # the same beat written as an int
+                    at = int(start)
+                    flags["at_int"] = True
+                else:
+                    at = bar.bar[i][0]
+                ctx.ok("place_notes_at", bar.place_notes_at, nc, at)
+                model.entries[i][2] = content_model(model.entries[i][2] + notes)
         flags["steps"] += 1
         if not sparse or k % 64 == 0 or k >= len(case["ops"]) - 6:
             _snap_ok(ctx, bar, model, where)
@@ -186,7 +204,7 @@ def check_history(ctx, case):
     flags = run_history(ctx, case)
     if flags is None:
         return ctx.note_case(False, ["history:constructor-failed"])
-    labs = ["history:" + k for k in ("capacity", "refusal", "rm_then_place", "plus_closes_bar") if flags[k]]
+    labs = ["history:" + k for k in ("capacity", "refusal", "rm_then_place", "plus_closes_bar", "at_int") if flags[k]]
     if case["meter"] == [0, 0]:
         labs.append("history:unbounded-meter")
     ctx.note_case(bool(labs) and flags["steps"] >= 2, labs or ["history:plain"])
@@ -315,7 +333,7 @@ def _ops_st():
     fill = st.tuples(st.just("fill"), form, _notes_st(), st.booleans()).map(list)
     rm = st.just(["rm"])
     seti = st.tuples(st.just("set"), st.integers(0, 50), st.sampled_from([f for f in mg.FORMS if f != "listpair"]), _notes_st()).map(list)
-    at = st.tuples(st.just("at"), st.integers(0, 50), _notes_st()).map(list)
+    at = st.tuples(st.just("at"), st.integers(0, 50), _notes_st(), st.sampled_from([0, 1, 1, 2])).map(list)
     empty = st.just(["empty"])
     meter = st.tuples(st.just("meter"), st.sampled_from(METERS)).map(list)
     return st.one_of(place, place, place, rest, rest, plus, fill, fill, rm, seti, at, empty, st.tuples(empty, meter).map(lambda t: t[0]), meter)
